@@ -5,6 +5,8 @@ Monitors: return-value monitors on voltage.interpolate_bad_channels / detect_bad
 labels must be their per-channel mode).  Oracles: bit-identity, convex-hull range of the admissible neighbours,
 ground truth of the injected faults.
 """
+import os
+
 import numpy as np
 import scipy.signal
 
@@ -224,6 +226,19 @@ def run_case(case):
                 res.violation(key, f"{label}: labels differ at channels {wrong[:8].tolist()}: got {lab[wrong][:8].tolist()} expected {exp[wrong][:8].tolist()} "
                               f"(xcor_hf {np.round(feat['xcor_hf'][wrong][:4], 2).tolist()})")
             res.count("oracle_evaluations")
+            # ---- the labels do not depend on whether the diagnostic figure is asked for (display=True draws it off-screen here)
+            if ntop and res.observed.get("display_runs", 0) < 2:
+                try:
+                    os.environ.setdefault("MPLBACKEND", "Agg")
+                    import matplotlib
+                    matplotlib.use("Agg", force=True)
+                    import matplotlib.pyplot as plt
+                    lab_d, _ = V.detect_bad_channels(x.copy(), fs, display=True)
+                    plt.close("all")
+                    res.check(np.array_equal(lab_d, lab), "detect:display-changes-labels", f"{label}: display=True returns other labels at channels {np.flatnonzero(lab_d != lab)[:8].tolist()}: "
+                              f"{lab_d[lab_d != lab][:8].tolist()} instead of {lab[lab_d != lab][:8].tolist()}", counter="display_runs")
+                except ImportError:
+                    pass
             # margins (for the evidence)
             ok = exp == 0
             if dead.size:
